@@ -107,6 +107,10 @@ pub fn enabled<P: Proto>(w: &ClientWorld<P>, cfg: &Cfg) -> Vec<(CAct, u8)> {
                         v.push((CAct::B(Pk::PingResp), 0));
                         v.push((CAct::B(Pk::SubAck(1)), 0));
                         v.push((CAct::B(Pk::UnsubAck(1)), 0));
+                        // the connection is lost in the middle of the inbound flows
+                        if w.mon.errors().len() < 2 {
+                            v.push((CAct::Fail, 1));
+                        }
                     }
                     1 => {
                         // unsolicited / repeated acknowledgements, ids above the limit
@@ -165,6 +169,10 @@ pub fn enabled<P: Proto>(w: &ClientWorld<P>, cfg: &Cfg) -> Vec<(CAct, u8)> {
             }
             if !connected {
                 v.push((CAct::Reconnect { sp: false }, 0));
+                if cfg.variant == 0 {
+                    // the session (with its open inbound QoS 2 flows) is resumed
+                    v.push((CAct::Reconnect { sp: true }, 0));
+                }
             }
         }
         "C18" => {
@@ -315,8 +323,8 @@ fn plans(prop: &str, tier: Tier) -> Vec<Plan> {
                     c.variant = variant;
                     c.manual_acks = variant == 3;
                     let d = match (variant, q) {
-                        (0, true) => vec![4],
-                        (0, false) => vec![6],
+                        (0, true) => vec![4, 4],
+                        (0, false) => vec![6, 6],
                         (1, true) => vec![4, 4],
                         (1, false) => vec![6, 6, 5],
                         (2, true) => vec![3, 3],
